@@ -2680,8 +2680,27 @@ func (m *Msg) hasAlt() bool {
 // References:
 //   - https://datatracker.ietf.org/doc/html/rfc2046#section-5.1.3
 func (m *Msg) hasMixed() bool {
-	return m.pgptype == 0 && ((len(m.parts) > 0 && len(m.attachments) > 0) || len(m.attachments) > 1 ||
+	return m.pgptype == 0 && ((m.numBodyParts() > 0 && len(m.attachments) > 0) || len(m.attachments) > 1 ||
 		(len(m.embeds) > 0 && len(m.attachments) > 0))
+}
+
+// numBodyParts returns the number of body parts of the Msg, not counting S/MIME signature parts.
+//
+// The signature part that is appended to the parts of a signed Msg is not part of the message body.
+// It must not influence the multipart structure, otherwise the entity that has been signed (rendered
+// before the signature part exists) and the entity that is finally written (rendered with the signature
+// part in the list) would differ for messages without any body part.
+//
+// Returns:
+//   - The number of parts that are not S/MIME signature parts.
+func (m *Msg) numBodyParts() int {
+	count := 0
+	for _, part := range m.parts {
+		if !part.smime {
+			count++
+		}
+	}
+	return count
 }
 
 // hasSMIME determines if the Msg should be signed with S/MIME.
@@ -2716,7 +2735,7 @@ func (m *Msg) isSMIMEInProgress() bool {
 // References:
 //   - https://datatracker.ietf.org/doc/html/rfc2387
 func (m *Msg) hasRelated() bool {
-	return m.pgptype == 0 && ((len(m.parts) > 0 && len(m.embeds) > 0) || len(m.embeds) > 1)
+	return m.pgptype == 0 && ((m.numBodyParts() > 0 && len(m.embeds) > 0) || len(m.embeds) > 1)
 }
 
 // hasPGPType returns true if the Msg should be treated as a PGP-encoded message.
